@@ -7,6 +7,7 @@
 #define VF_OPS_HPP
 
 #include <nix.hpp>
+#include "obs.hpp"
 #include <string>
 #include <vector>
 #include <functional>
@@ -32,11 +33,15 @@ void build_seed_r2(nix::File &f); // two blocks, nesting depth 4, one target lin
 void build_seed_r3(nix::File &f); // R1 plus a second block and at least two links in every link container
 
 // session helper: a work file that can be closed and reopened
+// handles RETURNED BY create* in the "chained" operations of the current session (keyed by entity id, like obs::Pool):
+// what they show must be what a freshly fetched handle shows (Explorer::creation_handles)
+extern obs::Pool created;
+
 struct Session {
     std::string path;
     nix::File file;
     void open(nix::FileMode m = nix::FileMode::ReadWrite) { file = nix::File::open(path, m); }
-    void close() { if (file && file.isOpen()) file.close(); file = nix::none; }
+    void close() { created.clear(); if (file && file.isOpen()) file.close(); file = nix::none; }
     void reopen(nix::FileMode m = nix::FileMode::ReadWrite) { close(); open(m); }
 };
 
